@@ -20,6 +20,15 @@ CLAIMS = {
  "C19": dict(cat="proof", tech="must-pass-through (take->restore) on MIR CFG, variant-map extraction from discriminant switches, field-read inventory, method-set parity",
    text="Proof of the structural clauses: every function that takes *self restores it on every returning path (8 bodies x arms); from_bare_yaml x3, Scalar::into_owned, ScalarOwned::as_scalar map each variant to the same-named variant with same-position payloads through value-preserving conversions; eager and deferred scalar paths use the same (text, style, tag); Some->Value/None->BadValue in value_from_cow_and_metadata; PartialEq/Hash of marked nodes read only `data`; macro method-set parity. Structural equality of loaded trees as values is not decided.",
    design="DESIGN.md §4 C19", note="Into/From/into_owned/clone/to_string between Cow<str>, String, &str preserve the value (std). " + TRUST),
+ "C07": dict(cat="proof", tech="call-chain/constant-argument check, per-arm path enumeration with operation counting on MIR, ordering/dominance in insert_new_node, sentinel-disjointness rule",
+   text="Proof of the structural clauses: load_from_str->load_from_iter->load_from_parser->Parser::load(..,true)?->into_documents; for each event kind every path of YamlLoader::on_event performs exactly the stack pushes/pops and the single insert_new_node (or docs push) that kind calls for; insert_new_node registers the anchor with a clone of the completed node before placing it and places it at most once (sequence push, pending key, mapping insert with that key, root); the 'no key pending' state cannot be forged by a node value. Equality of the loaded tree with a fold of the events, scalar resolution (C08) and hashlink's duplicate-key semantics are not decided.",
+   design="DESIGN.md §4 C07", note="Vec::push/LinkedHashMap::insert semantics; the event grammar of C02. " + TRUST),
+ "C18": dict(cat="proof", tech="loop-progress must-pass-through per match arm, interval lower bound of the growth step, panic-site inventory on MIR",
+   text="Proof that every cycle of decode_loop makes progress: InputEmpty leaves the loop, Malformed and OutputFull advance total_bytes_read on every looping path, and OutputFull grows the output by a reserve() whose argument has interval lower bound >= 4; panic-capable constructs of encoding.rs are discharged by dominating length tests/constant divisors or covered by a reviewed per-function table. Equality of decoded text with the original is encoding_rs semantics and is not decided.",
+   design="DESIGN.md §4 C18", note="encoding_rs contract (bytes_read <= src.len(), Malformed consumed >= 1 byte, OutputFull only with < 4 bytes of space left); String::reserve. " + TRUST),
+ "C20": dict(cat="proof", tech="delegation/caller facts, panic reachability per Option edge, expression-tree provenance of probe/hasher/hash, sibling agreement on MIR",
+   text="Proof of the structural clauses for the four node types: contains_mapping_key, as_mapping_get and Index<&str> inspect the result of the one as_mapping_get_impl (mut siblings likewise); Index panics exactly on the None edge and returns the Some payload; the probe is Value(String(key.into())) hashed via Hash::hash into a hasher built by the searched map's own BuildHasher, finished and handed to raw_entry(_mut)().from_hash of that same map with an equality closure that can only match resolved strings; Index<usize> uses get(idx)/get(Value(Integer(i64::try_from(idx)))) with diverging fallbacks; PartialEq and Hash are both derived. Behaviour under hash collisions inside hashlink and value-level agreement are not decided.",
+   design="DESIGN.md §4 C20", note="hashlink hashes stored keys through Hash::hash with its BuildHasher; derived Hash/PartialEq are structural; Cow<str>/String/&str hash as str. " + TRUST),
 }
 
 PENDING_REASON = "check under construction in this build round (see DESIGN.md §4 for the planned static rule); not claimed until it runs silent on the repaired tree and fires on its seeded mutants"
